@@ -544,8 +544,12 @@ PTRef Interpret::parseTerm(const ASTNode& term, LetRecords& letRecords) {
         if (tr == PTRef_Undef) return tr;
 
         if (strcmp(name_attr.getValue(), ":named") == 0) {
+            if (not name_attr.children or name_attr.children->empty() or
+                ((**(name_attr.children->begin())).getType() != SYM_T and (**(name_attr.children->begin())).getType() != QSYM_T)) {
+                reportError("the attribute :named needs a symbol as its value");
+                return PTRef_Undef;
+            }
             ASTNode& sym = **(name_attr.children->begin());
-            assert(sym.getType() == SYM_T or sym.getType() == QSYM_T);
             char const * str = sym.getValue();
             bool const success = main_solver->tryAddTermNameFor(tr, str);
             if (not success) {
@@ -736,9 +740,10 @@ void printAstTermNode(ASTNode const & astNode) {
         std::cout << "(!";
         printAstTermNode(named_term);
         std::cout << " " << name_attr.getValue();
-        ASTNode const & sym = **(name_attr.children->begin());
-        assert(sym.getType() == SYM_T or sym.getType() == QSYM_T);
-        std::cout << " " << sym.getValue();
+        if (name_attr.children and not name_attr.children->empty()) {
+            ASTNode const & sym = **(name_attr.children->begin());
+            if (sym.getValue() != nullptr) { std::cout << " " << sym.getValue(); }
+        }
         std::cout << ')';
     } else if (t == LET_T) {
         std::cout << "(let ";
